@@ -161,6 +161,11 @@ func init() {
 		"(*strings.Builder).String":    extBuilderString,
 		"(*strings.Builder).copyCheck": func(fr *frame, a []value) value { return nil },
 
+		"sort.Slice":       extSortSlice,
+		"sort.SliceStable": extSortSlice,
+		"reflect.Swapper":  extSwapper,
+		"internal/reflectlite.Swapper": extSwapper,
+
 		// reflect (minimal)
 		"reflect.TypeOf": extReflectTypeOf,
 
@@ -968,4 +973,38 @@ func protoEnumString(i *interpreter, fr *frame, fn *ssa.Function, args []value) 
 		return v, true
 	}
 	return strconv.Itoa(int(asInt64(args[0]))), true
+}
+
+func extSwapper(fr *frame, a []value) value {
+	xs, _ := a[0].(iface).v.([]value)
+	return &hostFunc{name: "swapper", f: func(fr *frame, args []value) value {
+		i, j := int(asInt64(args[0])), int(asInt64(args[1]))
+		xs[i], xs[j] = xs[j], xs[i]
+		return nil
+	}}
+}
+
+// sort.Slice / sort.SliceStable: the real pdqsort_func / stable_func run from
+// SSA; only the reflection-based swapper is supplied by the engine.
+func extSortSlice(fr *frame, a []value) value {
+	xs, ok := a[0].(iface).v.([]value)
+	if !ok {
+		panic(pathEnd{peUnsupported, "sort.Slice on non-slice"})
+	}
+	swap := extSwapper(fr, a)
+	pkg := fr.i.prog.ImportedPackage("sort")
+	ls := structure{a[1], swap} // lessSwap{Less, Swap}
+	n := len(xs)
+	if strings.HasSuffix(fr.fn.Name(), "Stable") {
+		f := pkg.Func("stable_func")
+		call(fr.i, fr, fr.pos, f, []value{ls, n})
+		return nil
+	}
+	limit := 0
+	for x := uint(n); x != 0; x >>= 1 {
+		limit++
+	}
+	f := pkg.Func("pdqsort_func")
+	call(fr.i, fr, fr.pos, f, []value{ls, 0, n, limit})
+	return nil
 }
